@@ -162,8 +162,9 @@ pub fn judge(c: &Case, o: &Result<Obs, String>) -> Option<(String, String, serde
           let off = *off as u64 * MS;
           (off.saturating_sub(o.eps).max(g), off.max(g))
         }
-        // an instant that already passed: "now", at the latest one period from now
-        _ => (g, p.max(g)),
+        // an instant that already passed: the first value is due at once,
+        // i.e. at the executor's first run
+        _ => (g, g),
       };
       if times[0] < lo {
         return bad("early_tick", format!("first tick at {}ns, not before {}ns", times[0], lo));
